@@ -107,7 +107,13 @@ macro_rules! rdata_enum {
                     return Err(crate::SimpleDnsError::InsufficientData);
                 }
 
-                parse_rdata(&data[..*position + rdatalen], position, rdatatype)
+                // the next entry starts right after this record's RDLENGTH bytes, whatever the
+                // typed content consumed
+                let end = *position + rdatalen;
+                let rdata = parse_rdata(&data[..end], position, rdatatype)?;
+                *position = end;
+
+                Ok(rdata)
             }
 
             fn write_to<T: std::io::Write>(
